@@ -15,15 +15,26 @@ for pid in sys.argv[1:]:
             t = open(os.path.join(root, "notes", alt)).read()
             if ('"%s": dict(' % pid) in t:
                 notes = t
-    m = re.search(r'^[ \t]*"%s": dict\((.*?)^\s*\),?[ \t]*$' % pid, notes, re.S | re.M)
-    if not m:
-        # entry may end with "),\n```"
-        m = re.search(r'"%s": dict\((.*?)\),?\s*\n```' % pid, notes, re.S)
-    if not m:
+    start = notes.find('"%s": dict(' % pid)
+    if start < 0:
         print("no entry for", pid); continue
-    body = m.group(1).rstrip()
-    if body.endswith(")"):
-        pass
+    i = start + len('"%s": dict(' % pid)
+    depth, instr, j = 1, None, i
+    while j < len(notes) and depth > 0:
+        ch = notes[j]
+        if instr:
+            if ch == "\\":
+                j += 1
+            elif ch == instr:
+                instr = None
+        elif ch in "\"'":
+            instr = ch
+        elif ch == "(":
+            depth += 1
+        elif ch == ")":
+            depth -= 1
+        j += 1
+    body = notes[i:j - 1].strip()
     entry = ' "%s": dict(%s),\n' % (pid, body if not body.endswith(",") else body)
     if ('"%s": dict(' % pid) in src:
         print(pid, "already present"); continue
